@@ -278,8 +278,11 @@ pub fn run_cli(sc: &Scenario, renderer: &str) -> Observation {
         return obs;
     }
     // command line
-    let update = sc.cli.command.as_deref() == Some("update");
-    let mut args: Vec<String> = if update {
+    let update = sc.cli.command.is_some();
+    let create = sc.cli.command.as_deref() == Some("create");
+    let mut args: Vec<String> = if create {
+        vec!["create".into(), "--no-color".into()]
+    } else if update {
         vec!["update".into(), "-y".into(), "--no-color".into()]
     } else {
         vec!["test".into(), "-r".into(), renderer.into(), "--no-color".into()]
@@ -312,7 +315,13 @@ pub fn run_cli(sc: &Scenario, renderer: &str) -> Observation {
         args.push("--shell".into());
         args.push(s.clone());
     }
-    if sc.cli.as_directory {
+    if create {
+        // the expression of the first test case is what `scrut create` is asked to run
+        if let Some(t) = sc.docs.iter().find(|d| d.main).and_then(|d| d.tests.first()) {
+            args.push("--".into());
+            args.push(t.expr.clone());
+        }
+    } else if sc.cli.as_directory {
         // all main documents live in one directory that holds nothing else
         let mut dirs: Vec<String> = sc
             .docs
